@@ -1,4 +1,4 @@
-// @unit id=v_streams props=C19,C17,C07,C15,C09,C02,C08 tier=quick
+// @unit id=v_streams props=C19,C17,C07,C15,C09,C02,C03,C04,C08 tier=quick
 // Verus contracts on the REAL bodies of src/proto/streams/streams.rs `drop_stream_ref` and `maybe_cancel` (extracted on
 // every run): what happens when the application drops a handle on a stream (C19 "once the application has dropped its
 // handles the endpoint retains nothing", C17 implicit reset of a stream nobody listens to any more).
@@ -89,6 +89,40 @@ impl SStore {
     /// the record stored under this stream id, if any
     pub uninterp spec fn spec_find(self, id: StreamId) -> Option<Stream>;
 
+    /// Store::resolve(key) without any claim on the handle count
+    #[verifier::external_body]
+    pub fn resolve_key(&mut self, key: Key) -> (s: Stream)
+        ensures s == old(self).spec_get(key) && s.key == key && final(self).held() == old(self).held() + 1,
+    { unimplemented!() }
+
+    /// Store::resolve(child_key) for the promised stream created a few lines earlier in the same critical section: no handle
+    /// has been created for it yet (ASSUMED link between two model calls: the model does not track store contents)
+    #[verifier::external_body]
+    pub fn resolve_promised_child(&mut self, key: Key) -> (s: Stream)
+        ensures s.key == key && s.ref_count == 0 && final(self).held() == old(self).held() + 1,
+    { unimplemented!() }
+
+    /// Store::insert(id, stream): the record enters the store and a Ptr to it comes back (owned model: the same stream,
+    /// with its key).  C02/C03 — THE obligation on every site that creates a stream: it starts with the SEND window the
+    /// peer advertised (SETTINGS_INITIAL_WINDOW_SIZE as recorded in Send) and the RECEIVE window this endpoint advertised
+    /// (as recorded in Recv).  Both are passed as ghost values by a listed substitution of the call.
+    #[verifier::external_body]
+    pub fn insert_new(&mut self, id: StreamId, stream: Stream, send_init: Ghost<int>, recv_init: Ghost<int>) -> (s: Stream)
+        requires
+            stream.id == id,
+            stream.send_flow.w() == send_init@ && stream.send_flow.a() == 0,
+            stream.recv_flow.w() == recv_init@ && stream.recv_flow.a() == recv_init@,
+        ensures
+            s == (Stream { key: s.key, ..stream }) && final(self).held() == old(self).held() + 1,
+            forall|k: Key| final(self).spec_get(k) == old(self).spec_get(k),
+    { unimplemented!() }
+
+    /// Ptr::remove (after Ptr::unlink): the record leaves the store
+    #[verifier::external_body]
+    pub fn remove(&mut self, stream: Stream)
+        ensures final(self).held() == old(self).held() - 1,
+    { unimplemented!() }
+
     /// Store::find_mut(&id) (owned model)
     #[verifier::external_body]
     pub fn find_mut(&mut self, id: &StreamId) -> (r: Option<Stream>)
@@ -137,6 +171,35 @@ impl Counts {
             *final(self) == (Counts { transitions: Ghost(old(self).transitions@ + 1), ..*old(self) }),
     { unimplemented!() }
 }
+
+impl Stream {
+    /// Stream::new (real body: Kani unit stream_new_windows, all u32 <= 2^31-1): send window = first argument with
+    /// nothing assigned, receive window = second argument, all of it available; idle; in no queue; no handle yet
+    #[verifier::external_body]
+    pub fn new(id: StreamId, init_send_window: WindowSize, init_recv_window: WindowSize) -> (s: Stream)
+        ensures
+            s.id == id && s.ref_count == 0 && !s.is_pending_push && !s.is_pending_open && !s.is_pending_send,
+            s.send_flow.w() == init_send_window && s.send_flow.a() == 0,
+            s.recv_flow.w() == init_recv_window && s.recv_flow.a() == init_recv_window,
+            s.state.inner is Idle,
+    { unimplemented!() }
+
+    /// Ptr::unlink: removes the id -> key association (store-side effect only)
+    #[verifier::external_body]
+    pub fn unlink(&mut self)
+        ensures *final(self) == *old(self),
+    { unimplemented!() }
+}
+
+/// http::Request<()> handed to push_request (opaque)
+pub struct Req { pub tag: u8 }
+/// frame::PushPromise (opaque here)
+pub struct PPFrame { pub tag: u8 }
+
+/// server::Peer::convert_push_message: validates and converts the promised request (C13 units)
+#[verifier::external_body]
+pub fn convert_push_message(stream_id: StreamId, promised_id: StreamId, request: Req) -> (r: Result<PPFrame, UserError>)
+{ unimplemented!() }
 
 impl StreamId {
     pub fn is_zero(&self) -> (r: bool) ensures r == (self.0 == 0) { self.0 == 0 }
@@ -187,8 +250,22 @@ impl Counts {
     { unimplemented!() }
 }
 
-pub struct Send { pub max_stream_id: StreamId, pub tag: u8 }
+pub struct Send { pub max_stream_id: StreamId, pub init_window_sz: WindowSize, pub tag: u8 }
 impl Send {
+    pub fn init_window_sz(&self) -> (r: WindowSize) ensures r == self.init_window_sz { self.init_window_sz }
+
+    /// Send::reserve_local: the next local stream id (Kani send_ids / unit v_send ensure_next_stream_id)
+    #[verifier::external_body]
+    pub fn reserve_local(&mut self) -> (r: Result<StreamId, UserError>)
+        ensures final(self).init_window_sz == old(self).init_window_sz && final(self).max_stream_id == old(self).max_stream_id,
+    { unimplemented!() }
+
+    /// Send::send_push_promise: queues the PUSH_PROMISE on the parent stream (or refuses: push disabled, bad headers)
+    #[verifier::external_body]
+    pub fn send_push_promise(&mut self, frame: PPFrame, buffer: &mut SendBuf, stream: &mut Stream, task: &mut Option<Waker>) -> (r: Result<(), UserError>)
+        ensures final(self).init_window_sz == old(self).init_window_sz,
+    { unimplemented!() }
+
     /// Send::recv_go_away (verified in unit v_send)
     #[verifier::external_body]
     pub fn recv_go_away(&mut self, last_stream_id: StreamId) -> (r: Result<(), Error>)
@@ -271,8 +348,10 @@ impl PeerDyn {
     { unimplemented!() }
 }
 
-pub struct Recv { pub last_processed_id: StreamId, pub max_stream_id: StreamId, pub tag: u8 }
+pub struct Recv { pub last_processed_id: StreamId, pub max_stream_id: StreamId, pub init_window_sz: WindowSize, pub tag: u8 }
 impl Recv {
+    pub fn init_window_sz(&self) -> (r: WindowSize) ensures r == self.init_window_sz { self.init_window_sz }
+
     pub fn last_processed_id(&self) -> (r: StreamId) ensures r == self.last_processed_id { self.last_processed_id }
     pub fn max_stream_id(&self) -> (r: StreamId) ensures r == self.max_stream_id { self.max_stream_id }
 
@@ -527,6 +606,50 @@ impl SInner {
     //@spec             ==> r == Err::<(), Error>(Error::GoAway(Reason::PROTOCOL_ERROR, Initiator::Library)),
     //@spec         // the only errors that leave this function are connection errors (a stream error was turned into RST_STREAM)
     //@spec         r is Err ==> (r matches Err(Error::GoAway(_, Initiator::Library))),
+    //@end
+}
+
+/// StreamRef<B>, reduced to the key of its stream (the Arc<Mutex<Inner>> and the send buffer are passed in, see below)
+pub struct StreamRefM { pub key: Key }
+
+//@extract src/proto/streams/streams.rs OpaqueStreamRef::new
+//@subst fn new(inner: Arc<Mutex<Inner>>, stream: &mut store::Ptr) -> OpaqueStreamRef=>fn opaque_stream_ref_new(stream: &mut Stream) -> Key
+//@subst_re OpaqueStreamRef \{\s*inner,\s*key: stream\.key\(\),\s*\}=>stream.key()
+//@ret r
+//@spec     requires old(stream).ref_count < usize::MAX,
+//@spec     ensures r == old(stream).key && *final(stream) == (Stream { ref_count: (old(stream).ref_count + 1) as usize, ..*old(stream) }),
+//@end
+
+impl StreamRefM {
+    // C02 / C03 / C04 / C19: a server promises a stream.  The new record is created with the peer's initial SEND window
+    // and our initial RECEIVE window (precondition of SStore::insert_new — a swap of the two arguments of Stream::new is a
+    // failed obligation), reserved(local), waiting for its PUSH_PROMISE; if the promise cannot be queued the record is
+    // removed again; on success exactly one new handle exists for it.  Every Ptr is handed back.
+    // Listed substitutions: the two Mutex lock preambles and `request.extensions_mut().clear()` are removed (the body runs
+    // inside the critical section; `me` and `send_buffer` become parameters), `actions` is `me.actions`, the returned
+    // StreamRef is reduced to the key of the promised stream.
+    //@extract src/proto/streams/streams.rs StreamRef::send_push_promise
+    //@subst_re pub fn send_push_promise\(\s*&mut self,\s*mut request: Request<\(\)>,\s*\) -> Result<StreamRef<B>, UserError>=>pub fn send_push_promise(&mut self, request: Req, me: &mut SInner, send_buffer: &mut SendBuf) -> Result<Key, UserError>
+    //@subst_re request\.extensions_mut\(\)\.clear\(\);\s*let mut me = self\.opaque\.inner\.lock\(\)\.unwrap\(\);\s*let me = &mut \*me;\s*let mut send_buffer = self\.send_buffer\.inner\.lock\(\)\.unwrap\(\);\s*let send_buffer = &mut \*send_buffer;\s*let actions = &mut me\.actions;=>
+    //@subst let promised_id = actions.send.reserve_local()?;=>let promised_id = me.actions.send.reserve_local()?;
+    //@subst_re me\.store\.insert\(\s*promised_id,\s*Stream::new\((.*?)\),\s*\); ==>> me.store.insert_new(promised_id, Stream::new(\1), Ghost(me.actions.send.init_window_sz as int), Ghost(me.actions.recv.init_window_sz as int));
+    //@subst actions.send.init_window_sz()=>me.actions.send.init_window_sz()
+    //@subst actions.recv.init_window_sz()=>me.actions.recv.init_window_sz()
+    //@subst_re child_stream\.key\(\)\s*\}; ==>> let _k = child_stream.key(); me.store.put_back_any(child_stream); _k };
+    //@subst let mut stream = me.store.resolve(self.opaque.key);=>let mut stream = me.store.resolve_key(self.key);
+    //@subst crate::server::Peer::convert_push_message(stream.id, promised_id, request)?;=>match convert_push_message(stream.id, promised_id, request) { Ok(f) => f, Err(e) => { me.store.put_back_any(stream); return Err(e); } };
+    //@subst_re actions\s*\.send\s*\.send_push_promise\(frame, send_buffer, &mut stream, &mut actions\.task\)\s*\}; ==>> let _p = me.actions.send.send_push_promise(frame, send_buffer, &mut stream, &mut me.actions.task); me.store.put_back_any(stream); _p };
+    //@subst let mut child_stream = me.store.resolve(child_key);=>let mut child_stream = me.store.resolve_key(child_key);
+    //@subst child_stream.remove();=>me.store.remove(child_stream);
+    //@subst_re let opaque =\s*OpaqueStreamRef::new\(self\.opaque\.inner\.clone\(\), &mut me\.store\.resolve\(child_key\)\); ==>> let mut _c = me.store.resolve_promised_child(child_key); let opaque = opaque_stream_ref_new(&mut _c); me.store.put_back_any(_c);
+    //@subst_re Ok\(StreamRef \{\s*opaque,\s*send_buffer: self\.send_buffer\.clone\(\),\s*\}\)=>Ok(opaque)
+    //@ret r
+    //@spec     requires old(me).refs < usize::MAX,
+    //@spec     ensures
+    //@spec         final(me).store.held() == old(me).store.held(),
+    //@spec         r is Ok ==> final(me).refs == old(me).refs + 1,
+    //@spec         r is Err ==> final(me).refs == old(me).refs,
+    //@spec         final(me).actions.send.init_window_sz == old(me).actions.send.init_window_sz && final(me).actions.recv.init_window_sz == old(me).actions.recv.init_window_sz,
     //@end
 }
 
